@@ -95,7 +95,7 @@ Definition exchange (s : gc) (e : yev) (flag : bool) : bool :=
   match e with
   | YLinkDown | YDisable => false            (* the current link ends *)
   | YInS1F14 c r => flag || (is s communication_WAIT_CRA && r && (c =? 0))
-  | YInS1F13 accept => flag || (is s communication_WAIT_CRA && accept)
+  | YInS1F13 accept => flag || ((is s communication_WAIT_CRA || is s communication_WAIT_DELAY) && accept)
   | _ => flag
   end.
 Fixpoint run_flag (s : gc) (flag : bool) (es : list yev) : gc * bool :=
